@@ -205,6 +205,20 @@ func VerifH_C17_storage() {
 			r.Close()
 		}
 	}
+	// readers opened after the later parts have been allocated, still before Finalize
+	for i := range fs {
+		for p := range parts[i] {
+			r, err := parts[i][p].Reader()
+			verifAssert("C17", "part-reader-before-finalize-"+names[i], err == nil)
+			if err != nil {
+				continue
+			}
+			got, err := verifReadAllBuf(r, 3)
+			verifAssert("C17", "part-readable-before-finalize-"+names[i], err == nil)
+			obs(i, got, wantL[p], wantE[p])
+			r.Close()
+		}
+	}
 	for i := range fs {
 		files[i].Finalize()
 	}
